@@ -296,6 +296,9 @@ def shape_engine(prop, tier, seed, keep=False):
         # the instance flavours the shape harness cannot instantiate (no / pointer / value context), copies and moves with the source destroyed
         extra['context_less_pointer_and_value_context_instances'] = run_unit(V, 'c10_ctxless.cpp', ['u-clang-asan', 'gcc-vg'] + (['u-gcc-O2'] if tier == 'thorough' else []), tier, seed, 'ctxless|', 'C10', sanitizer_prop='C11')
         extra['copied_and_moved_instances_with_pending_tasks'] = run_unit(V, 'c14_copy_tasks.cpp', ['u-clang-asan'], tier, seed, 'copied-tasks|', 'C14', sanitizer_prop='C11')
+    if prop == 'C02':
+        # batches of two requests meeting in a composite region, one fixed machine, all start configurations (deterministic; observes a recorded finding)
+        extra['two_request_batches_meeting_in_a_composite_region'] = run_unit(V, 'c02_batch_ortho.cpp', ['u-gcc', 'u-clang-asan'] + (['u-gcc-O2', 'u-clang-dev'] if tier == 'thorough' else []), tier, seed, 'batch|', 'C02', sanitizer_prop='C11')
     if prop == 'C16':
         # plain states overriding sparse subsets of the callbacks (exactly one of enter / reenter, ...): logger's method records against the callbacks really run
         extra['states_overriding_sparse_subsets_of_methods'] = run_unit(V, 'c16_sparse.cpp', ['u-gcc', 'u-clang-asan', 'u-gcc-vlog', 'u-clang-dev'] + (['u-gcc-O2', 'u-clang-O1', 'u-clang-vlog'] if tier == 'thorough' else []), tier, seed, 'sparse-overrides|', 'C16', sanitizer_prop='C11')
